@@ -12,7 +12,9 @@ EXPLANATION = ("(R1) the ideal law: the granted power is exactly min(pilot x vol
                "routines (SoC quantities never mixed with kWh, both exp() arguments dimensionless, kW/kWh/A/min conversions); "
                "(R3) zero pilot: the `pilot == 0` return precedes every update of the stored charge and reports rate 0 and "
                "power 0; (R4) reset restores the initial (or the validated given) charge and zero power on every path, and "
-               "EV.reset zeroes the delivered energy and resets its battery.")
+               "EV.reset zeroes the delivered energy and resets its battery; (R5) the region tests and the pieces of the "
+               "continuous closed form agree on the pilot-adjusted breakpoint (decided on expanded expressions with only that "
+               "variable kept symbolic); (R6) the pilot's SoC rate is capped by the maximum SoC rate on every path to a use.")
 NOT_DECIDED = ("agreement of the closed form with the differential law, the period-splitting identity T = T/2 + T/2 and "
                "monotonicity in pilot and T: identities of real analysis, not visible in the shape of the code "
                "(e.g. a flipped branch condition between the crossing and non-crossing closed forms is NOT detected)")
@@ -86,44 +88,85 @@ def rule_reset(ck, rid="C14.R4"):
 
 def rule_breakpoint(ck, rid="C14.R5"):
     """the region test of the two-stage closed form and the formulas it guards use the same breakpoint (the pilot-adjusted
-    transition state of charge): a piecewise solution whose test and pieces disagree on the breakpoint is not a solution of the law."""
+    transition state of charge): a piecewise solution whose test and pieces disagree on the breakpoint is not a solution of the law.
+    Decided on def-use-expanded expressions in which only the adjusted breakpoint is kept symbolic, so temporaries, extracted helpers
+    (inlined) and conditional-expression forms of the same law are read alike."""
+    from ..flow import leaves
     repo = ck.repo
     f = repo.fn("Linear2StageBattery._charge")
     fl = flow_of(f)
     cfg = fl.cfg
+    NOM = "self._transition_soc"
+    need = {NOM, f.params[1], "self._max_power"}
+    # the pilot-adjusted breakpoint: the variable derived from the nominal breakpoint, the pilot and the maximum power (not from the SoC)
+    adj = {}
+    for n in cfg.nodes:
+        for nm, how in fl._defs.get(n, {}).items():
+            if how[0] == "assign" and not isinstance(how[1], ast.Name):
+                lv = leaves(fl.expand(how[1], n), calls=False)
+                if NOM in lv and not ({"self._soc", "self.soc", "self._current_charge"} & lv):
+                    adj.setdefault(nm, []).append((n, how[1], lv))
+    # further temporaries derived from it (e.g. a ramp width) are candidates too: the breakpoint is the one not defined through another
+    names = set(adj)
+    last = {nm for nm in names if not any(isinstance(x, ast.Name) and x.id in names and x.id != nm for _, v, _ in adj[nm] for x in ast.walk(v))}
+    if len(last) != 1:
+        raise AnalysisError(f"_charge: pilot-adjusted breakpoint not identified (candidates {sorted(names)})")
+    adjn = next(iter(last))
+    for n, v, lv in adj[adjn]:
+        ck.require(need <= lv, rid, f, n.stmt, ok="adjusted breakpoint depends on the nominal breakpoint, the pilot and the maximum power",
+                   bad=f"the pilot-adjusted breakpoint does not depend on {sorted(need - lv)}", sink="breakpoint:definition")
 
-    def trans_syms(e):
+    def syms(e):
         out = set()
         for x in ast.walk(e):
             d = dotted(x)
-            if d and "transition_soc" in d.split(".")[-1] and isinstance(x, (ast.Name, ast.Attribute)):
+            if d in (adjn, NOM) and isinstance(x, (ast.Name, ast.Attribute)):
                 out.add(d)
         return out
-    tests = [n for n in cfg.nodes if n.kind == "test" and any(dotted(x) in ("self._soc", "self.soc") for x in ast.walk(n.expr)) and trans_syms(n.expr)]
-    ck.floor(rid, len(tests), 1, "region tests comparing the state of charge with a transition point in _charge")
-    for t in tests:
-        own = trans_syms(t.expr)
-        inside = set()
-        for e in [s for s in t.succ if s.kind == "edge"]:
-            for n in cfg.nodes:
-                if cfg.dominates(e, n):
-                    for x in cfg.node_exprs(n):
-                        inside |= trans_syms(x)
-        ck.require(len(own) == 1 and inside <= own, rid, f, t.expr, ok=f"test and guarded formulas agree on the breakpoint {sorted(own)}",
-                   bad=f"the region test uses {sorted(own)} as breakpoint but the formulas it guards use {sorted(inside - own)}: pilots below the maximum are "
-                       f"charged with the wrong branch of the law between the two values", sink="breakpoint:agree")
-    # the pilot-adjusted breakpoint is derived from the nominal one, the pilot and the maximum rate of change
-    defs = [n for n in cfg.nodes if n.kind == "stmt" and isinstance(n.stmt, ast.Assign) and any(dotted(t) == "pilot_transition_soc" for t in n.stmt.targets)]
-    for n in defs:
-        from ..flow import leaves
-        lv = leaves(fl.expand(n.stmt.value, n), calls=False)
-        need = {"self._transition_soc", "pilot", "self._max_power"}
-        ck.require(need <= lv, rid, f, n.stmt, ok="adjusted breakpoint depends on the nominal breakpoint, the pilot and the maximum power",
-                   bad=f"the pilot-adjusted breakpoint does not depend on {sorted(need - lv)}", sink="breakpoint:definition")
+
+    def has_soc(e):
+        return any(dotted(x) in ("self._soc", "self.soc") for x in ast.walk(e))
+    fl.keep = {adjn}
+    try:
+        regions = []        # (report node, expanded test, [expanded guarded expressions])
+        for t in cfg.nodes:
+            if t.kind == "test":
+                te = fl.expand(t.expr, t)
+                if has_soc(te) and syms(te):
+                    inside = []
+                    for e in [s for s in t.succ if s.kind == "edge"]:
+                        for n in cfg.nodes:
+                            if cfg.dominates(e, n):
+                                inside += [fl.expand(x, n) for x in cfg.node_exprs(n) if isinstance(x, ast.expr)]
+                                if n.kind == "stmt" and isinstance(n.stmt, (ast.Assign, ast.AugAssign, ast.Return, ast.Expr)) and getattr(n.stmt, "value", None) is not None:
+                                    inside.append(fl.expand(n.stmt.value, n))
+                    regions.append((t.expr, te, inside))
+        for n in cfg.nodes:
+            for x in cfg.node_exprs(n):
+                for ie in ast.walk(x):
+                    if isinstance(ie, ast.IfExp):
+                        te = fl.expand(ie.test, n)
+                        if has_soc(te) and syms(te):
+                            regions.append((ie, te, [fl.expand(ie.body, n), fl.expand(ie.orelse, n)]))
+    finally:
+        fl.keep = set()
+    ck.floor(rid, len(regions), 1, "region tests comparing the state of charge with a transition point in _charge")
+    for rep, te, inside in regions:
+        own = syms(te)
+        ins = set()
+        for e in inside:
+            ins |= syms(e)
+        ck.require(own == {adjn} and ins <= own, rid, f, rep, ok=f"test and guarded formulas agree on the breakpoint {sorted(own)}",
+                   bad=f"the region test uses {sorted(own)} as breakpoint and the formulas it guards use {sorted(ins)}: the closed form is the solution of the law only "
+                       f"with the pilot-adjusted breakpoint `{adjn}` in both; pilots below the maximum are charged with the wrong branch between the two values",
+                   sink="breakpoint:agree")
 
 
 def run(ck):
     rule_breakpoint(ck)
+    # the documented law charges at min(pilot, maximum) in the constant-power region: the pilot's SoC rate is capped before every use
+    from .c03 import rule_pilot_cap
+    rule_pilot_cap(ck, rid="C14.R6")
     rule_ideal(ck, rid="C14.R1")
     rule_units(ck)
     rule_zero_pilot(ck)
